@@ -9,11 +9,14 @@ prop(
     "receiver's limit in force, the sum of new bytes (extension of the per-stream high-water mark) against MAX_DATA, the send controller's remaining credit after every assembled packet against "
     "limit - new bytes (retransmissions free, unused credit returned, nothing uncharged), and that originated MAX_DATA / MAX_STREAM_DATA values never decrease. "
     "Receiver leg: 2 roles x 3 stream kinds x limits {0,1,100,1000,65536} x excess {1,2,1000,2^32,2^60} x {STREAM, STREAM+FIN, RESET_STREAM} x {first frame, after legal data, after a read moved the window} x 2 stream indices, "
-    "and connection-level analogues, through recv_data / recv_stream_control + ArcRecvController: outcome must be FLOW_CONTROL_ERROR.",
+    "and connection-level analogues, through recv_data / recv_stream_control + ArcRecvController: outcome must be FLOW_CONTROL_ERROR. Whole-stack leg (l2-inject): 8 frames (STREAM beyond the stream limit at the client and at the server, one frame within its stream limit but beyond the connection limit, RESET_STREAM with a final size beyond the limit, STREAM exactly at the limit, maximal MAX_DATA / MAX_STREAM_DATA) are injected through hook H3 into the 1-RTT packets of an honest peer of a real dquic connection; the victim must close with FLOW_CONTROL_ERROR, respectively keep the connection open for the legal ones.",
     level_note="Trusted: the ledger (about 150 lines), the channel model of C01. Two of three histories use unequal uni / bidi-remote values; they end at the first finding.",
     design_ref="DESIGN.md §3 C11",
-    legs=[dict(name="flow", crate="l1rec", sub="c11", shards={Q: 16, T: 16}, budget={Q: 2500, T: 100000}, timeout=1800)],
-    floors={Q: {"ledger_stream_frames_checked": 300_000, "ledger_credit_probes": 1_000_000, "ledger_credit_probes_while_blocked": 100_000, "ledger_frames_exactly_at_stream_limit": 5_000,
+    legs=[dict(name="flow", crate="l1rec", sub="c11", shards={Q: 16, T: 16}, budget={Q: 2500, T: 100000}, timeout=1800),
+          dict(name="l2-inject", crate="l2", sub="c04", args=["--prop", "C11"], shards={Q: 2, T: 2}, timeout=900)],
+    floors={Q: {
+            "probes_delivered": 8,
+"ledger_stream_frames_checked": 300_000, "ledger_credit_probes": 1_000_000, "ledger_credit_probes_while_blocked": 100_000, "ledger_frames_exactly_at_stream_limit": 5_000,
                 "ledger_frames_exactly_at_conn_limit": 50_000, "ledger_max_data_delivered": 50_000, "ledger_max_stream_data_delivered": 5_000, "ledger_advertisements_checked": 100_000,
                 "ledger_retransmitted_bytes_free": 1_000_000, "hostile_stream_level_scenarios": 2000, "hostile_conn_level_scenarios": 400, "sets.stream_limit_kinds_checked": 3, "distinct": 10_000}},
     assumptions=["the send controller's credit is observed through the public credit() API (a probe takes and returns the whole remaining credit, as every packet assembly does)",
